@@ -880,6 +880,32 @@ def _uel(ip, args, kwargs, lineno):
     return SArr.fresh(conc(I(a.length) + 1), lambda i: Ite(I(i) == 0, 0, f(I(i) - 1)), a.kind, a.enc)
 
 
+@func_model("npstructures.raggedarray.raggedslice.ragged_slice")
+def _ragged_slice(ip, args, kwargs, lineno):
+    """ragged_slice(flat, starts, ends) for a 1-D array: row i = flat[starts[i] : e_i) with e_i = size+ends[i] if ends[i] < 0 else
+    min(ends[i], size); empty when e_i <= starts[i].  A copy (fancy indexing).  ASSUMED (npstructures), validated by the self-check."""
+    data, starts, ends = args[0], args[1] if len(args) > 1 else kwargs.get("starts"), args[2] if len(args) > 2 else kwargs.get("ends")
+    if not (isinstance(data, SArr) and isinstance(starts, SArr) and isinstance(ends, SArr)):
+        raise Unsupported("ragged_slice of %r" % (data,))
+    M.use("ragged_slice(flat, starts, ends): row i = flat[starts[i] : clamp(ends[i]))")
+    M.same_len(starts.length, ends.length, "ragged_slice", lineno)
+    fd, fs, fe = data.snapshot(), starts.snapshot(), ends.snapshot()
+    size = data.length
+    eff = lambda i: Ite(I(fe(i)) < 0, I(size) + I(fe(i)), Min(I(fe(i)), I(size)))
+    fl = lambda i: Max(eff(i) - I(fs(i)), 0)
+    n = starts.length
+    ip.ctx.oblige("%s:ragged_slice.inbounds@L%s" % (ip.ctx.fname, lineno),
+                  Forall(lambda i: Implies(And(in_range(i, n), I(fl(i)) > 0), I(fs(i)) >= 0)), "safety", lineno,
+                  "non-empty rows start inside the data")
+    view = SRaggedObj(fd, n, fs, fl, getattr(data, "enc", None), size)
+    # the result is a NEW contiguous ragged array: its data is the concatenation of the rows, its shape has starts = prefix sums
+    flat = ragged_ravel(ip, view, lineno)
+    row, C, _ = flat.ravel_ragged
+    out = SRaggedObj(flat.snapshot(), n, lambda i: C(I(i)), fl, getattr(data, "enc", None), flat.length, contiguous=True, C=C)
+    out.sliced_from = view            # ghost: where each row came from (contracts may name it)
+    return out
+
+
 @class_model("npstructures.raggedarray.RaggedArray")
 def _ragged(ip, args, kwargs, lineno):
     return make_ragged(ip, args[0], args[1], None, lineno)
@@ -1011,6 +1037,17 @@ class SRaggedObj(SRagged):
             new_starts = lambda i: I(st0(i)) + I(bounds(i)[0])
             new_lens = lambda i: M.slice_len(*bounds(i))
             return SRaggedObj(self.data_at, self.n, new_starts, new_lens, self.enc, self.total)
+        if isinstance(idx, RView):
+            # ragged[RaggedView(starts, lens)]: rows cut out of THIS array's flattened data (npstructures: ravel()[flat indices]); a copy
+            M.use("ragged[RaggedView(starts, lens)]: row i = ravel(ragged)[starts[i] : starts[i]+lens[i])")
+            flat = ragged_ravel(ip, self, lineno)
+            f, fs, fl = flat.snapshot(), idx.starts.snapshot(), idx.lens.snapshot()
+            M.same_len(idx.starts.length, idx.lens.length, "raggedview", lineno)
+            m = idx.starts.length
+            ip.ctx.oblige("%s:raggedview.inbounds@L%s" % (ip.ctx.fname, lineno),
+                          Forall(lambda i: Implies(And(in_range(i, m), I(fl(i)) > 0), And(I(fs(i)) >= 0, I(fs(i)) + I(fl(i)) <= I(flat.length), I(fl(i)) >= 0))),
+                          "safety", lineno, "every row of the view lies inside the flattened data")
+            return SRaggedObj(f, m, fs, fl, self.enc, flat.length)
         if isinstance(idx, (int, z3.ArithRef)):
             i = M.wrapneg(idx, self.n)
             ip.ctx.check("%s:index.inbounds@L%s" % (ip.ctx.fname, lineno), in_range(i, self.n), "safety", lineno)
